@@ -569,23 +569,8 @@ func derives(v ssa.Value, src func(ssa.Value) bool, o *flowOpts, seen map[ssa.Va
 	case *ssa.UnOp:
 		if x.Op == token.MUL {
 			if a, ok := x.X.(*ssa.Alloc); ok {
-				// every store into the local must derive (all) / some store (any)
-				n, okc := 0, 0
-				for _, r := range *a.Referrers() {
-					if s, ok := r.(*ssa.Store); ok && s.Addr == a {
-						n++
-						if rec(s.Val) {
-							okc++
-						}
-					}
-				}
-				if n == 0 {
-					return false
-				}
-				if all {
-					return okc == n
-				}
-				return okc > 0
+				delete(seen, a)
+				return rec(a)
 			}
 		}
 		return rec(x.X)
